@@ -320,7 +320,7 @@ class Fn:
 
     def parse(self):
         if self._parsed: return self
-        self.locals = dict(self.args); self.blocks = {}; self.cleanup = set()
+        self.locals = dict(self.args); self.blocks = {}; self.cleanup = set(); self.debug = {}
         cur = None; files = set(); lo = 10 ** 9; hi = 0
         span_re = re.compile(r'\s+// scope \d+ at (.*)$')
         for raw in self._lines:
@@ -340,6 +340,8 @@ class Fn:
             if cur is None:
                 m = re.match(r'^let (mut )?(_\d+): (.*);$', s)
                 if m: self.locals[m.group(2)] = m.group(3); continue
+                m = re.match(r'^debug (\w+) => (.*);$', s)
+                if m: self.debug[m.group(1)] = m.group(2); continue
             m = re.match(r'^bb(\d+)( \(cleanup\))?: \{$', s)
             if m:
                 cur = int(m.group(1)); self.blocks[cur] = []
@@ -361,6 +363,16 @@ class Fn:
         return st
 
     def nargs(self): return len(self.args)
+
+    def captures(self):
+        """closure upvars by source name -> (field index of _1, captured by reference?) from the `debug` lines"""
+        self.parse(); out = {}
+        for nm, ex in self.debug.items():
+            m = re.match(r'^\(\*\(\(\*_1\)\.(\d+): .*\)\)$', ex) or re.match(r'^\(\*\(_1\.(\d+): .*\)\)$', ex)
+            if m: out[nm] = (int(m.group(1)), True); continue
+            m = re.match(r'^\(\(\*_1\)\.(\d+): .*\)$', ex) or re.match(r'^\(_1\.(\d+): .*\)$', ex)
+            if m: out[nm] = (int(m.group(1)), False)
+        return out
 
 # ----------------------------------------------------------------------------------------------
 class Mir:
